@@ -16,6 +16,7 @@ type Summary struct {
 	MetaOnly  int  // present files whose body is intact but whose metadata (checksum or pad byte) is not
 	PadDecides bool // the first file whose checksum field matches its body carries a changed pad-count byte
 	PadAny    bool
+	Swapped   int // present files whose body is the (valid) body of another blob's shard
 }
 
 // Summarise: state[i] is the token history of shard i since it was last written ("m" for a failed write).
@@ -42,6 +43,9 @@ func Summarise(state []string, size, d int) Summary {
 			} else {
 				s.Body++
 			}
+		case tok == "o":
+			s.Body++
+			s.Swapped++
 		case tok[0] == 'c':
 			s.Body++
 		case tok[0] == 'k':
@@ -76,6 +80,8 @@ func ReadSignature(class string, s Summary, p int) (sig, what string) {
 		return "C25/panic-short-shard-file", "a shard file shorter than the 17-byte metadata prefix makes a GetOne worker goroutine slice out of range; the process dies"
 	case class == "panic":
 		return "C25/panic-nil-metadata", "Decode reaches detectBadShardsThenReconstruct with a missing shard (nil metadata) and slices the nil entry; the process dies"
+	case strings.HasPrefix(class, "ok:wrong") && !within && s.Swapped > p && s.Missing == 0 && !s.Short:
+		return "C25/consistent-corruption-passes-verify", "more than p shard bodies replaced by the bodies of another blob's shards (every one fails its checksum): all shards are present and consistent, Verify passes and Decode never looks at the checksums; the other blob is returned"
 	case strings.HasPrefix(class, "ok:wrong") && !within:
 		return "C25/wrong-bytes-beyond-parity", "more than p damaged shards: a corrupted shard is used to reconstruct the missing ones, Verify passes trivially and GetOne returns wrong bytes with a nil error"
 	case strings.HasPrefix(class, "ok:wrong"):
@@ -116,7 +122,7 @@ func Csv(x []string) string {
 }
 
 func KindClass(tok string) string {
-	if tok == "g" || tok == "m" {
+	if tok == "g" || tok == "m" || tok == "o" {
 		return tok
 	}
 	if tok[0] == 't' {
